@@ -17,6 +17,7 @@ struct Gen {
     r: Rng, n: usize, admin_mask: u64, next_ev: u64, next_msg: u64,
     evs: BTreeMap<u64, EvMeta>, regime_causal: bool, immediate: bool,
     client_epoch: Vec<u64>, delivered: BTreeSet<u64>, left: Option<usize>, adv: u32, twin: bool, removed: bool,
+    no_send: BTreeSet<usize>,   // clients that re-entered an MLS state through a rollback triggered by one of their own commits (see run_world)
 }
 
 impl Gen {
@@ -25,6 +26,8 @@ impl Gen {
     fn next<S: MdkStorageProvider>(&mut self, w: &World<S>) -> String {
         let k = self.r.below(100);
         let m = self.r.below(self.n as u64) as usize;
+        // a client that re-entered an MLS state with fresh ratchets creates nothing more (only deliveries are generated for it)
+        let k = if self.no_send.contains(&m) { 50 } else { k };
         let pending: Vec<(usize, u64)> = (0..self.n).filter_map(|c| w.pending_of(c).map(|e| (c, e))).collect();
         if k < 14 && !pending.iter().any(|(c, _)| *c == m) {
             let is_admin = self.admin_mask & (1 << m) != 0;
@@ -71,7 +74,7 @@ impl Gen {
             self.evs.insert(ev, EvMeta { kind: "bad", author: 99, epoch_hint: 0 });
             return format!("PR BAD {ev} {} {}", self.ts(), self.r.below(5));
         }
-        if k < 40 {
+        if k < 40 && !self.no_send.contains(&m) {
             let ev = self.next_ev; self.next_ev += 1; let msg = self.next_msg; self.next_msg += 1;
             self.evs.insert(ev, EvMeta { kind: "app", author: m, epoch_hint: self.client_epoch[m] });
             // sometimes a (malicious) sender pre-sets the id of an existing message of another author on its rumor
@@ -178,7 +181,7 @@ fn run_world<S: MdkStorageProvider, F: Fn(usize) -> S>(run: &mut Run, lines_in: 
         if reuse_script { admin_mask &= !0b10; }
         if twin { admin_mask = (admin_mask & !0b1000) | ((admin_mask & 0b100) << 1); }
         let mut g = Gen { r: r.fork(), n, admin_mask, next_ev: 0, next_msg: 1, evs: BTreeMap::new(),
-                          regime_causal: h % 3 != 2, immediate: h % 4 == 3, client_epoch: vec![1; n], delivered: BTreeSet::new(), left: None, adv: 0, twin, removed: false };
+                          regime_causal: h % 3 != 2, immediate: h % 4 == 3, client_epoch: vec![1; n], delivered: BTreeSet::new(), left: None, adv: 0, twin, removed: false, no_send: BTreeSet::new() };
         let mut w: World<S> = World::new_full(n, admin_mask, retention, twin, spare, &mk);
         if let Some(f) = reopen_factory.as_ref() { w.reopen = Some(f(h)); }
         let reset = format!("PR RESET {n} {admin_mask} {retention}{}", if spare > 0 { format!(" {} {spare}", twin as u8) } else if twin { " 1".to_string() } else { String::new() });
@@ -266,6 +269,16 @@ fn run_world<S: MdkStorageProvider, F: Fn(usize) -> S>(run: &mut Run, lines_in: 
             if fp == "skip" { continue; }
             // keep generator's view of epochs in step with reality (record epoch printed as ep=)
             if l.starts_with("PR JOIN") && g.n < w.clients.len() { g.n += 1; g.client_epoch.push(1); }
+            // A rollback triggered by one of the client's OWN commits restores and re-merges its pending commit (known findings
+            // own-echo / resurrected pending commit): the client re-enters the same MLS state with fresh ratchets, so whatever it
+            // sends afterwards re-uses message generations (receivers answer SecretReuseError).  The engine model does not track
+            // sender generations; such a client sends nothing more in generated histories (recorded in DESIGN.md section 10).
+            if l.starts_with("PR DELIVER") && fp.contains(" rb=") {
+                let t: Vec<&str> = l.split(' ').collect();
+                if let (Ok(m), Ok(ev)) = (t[2].parse::<usize>(), t[3].parse::<u64>()) {
+                    if w.events.get(&ev).map(|i| i.kind == "commit" && i.author == m).unwrap_or(false) && !fp.ends_with(" rb=0") { g.no_send.insert(m); }
+                }
+            }
             if !l.starts_with("PR BAD") { if let Some(m) = l.split(' ').nth(2).and_then(|x| x.parse::<usize>().ok()) { if m < g.client_epoch.len() { g.client_epoch[m] = w.mls_epoch(m); } } }
             if fp == "PANIC" { run.oracle_fail("C06", "", format!("[{backend}] panic in `{l}`"), seq.join(" || ") + " || " + &line); }
             if fp.contains(" rb=") && !fp.ends_with(" rb=0") { rolled = true; }
@@ -325,7 +338,10 @@ fn step<S: MdkStorageProvider>(w: &mut World<S>, l: &str, truth: &mut Truth, run
             let rolled = w.clients[m].cb.0.lock().unwrap().len() > rb_before;
             let ok = match &info { Some(i) if i.kind == "commit" && i.auth => true, _ => false };
             if !ok && !rolled {
-                run.oracle_fail("C05", if truth.sweeps { "operation-commits-others-pending-proposals" } else { "" }, format!("[{backend}] member {m}: roster/name changed ({:?},{name_before}) -> ({:?},{name_after}) by event {ev} which is not an authorised commit", members_before, members_after), seqtxt());
+                // the known finding covers the AUTHOR applying its own sweeping commit (own commits are not re-validated); a
+                // receiver that applies somebody else's unauthorised commit is not that
+                let own = info.as_ref().map(|i| i.author == m).unwrap_or(false);
+                run.oracle_fail("C05", if truth.sweeps && own { "operation-commits-others-pending-proposals" } else { "" }, format!("[{backend}] member {m}: roster/name changed ({:?},{name_before}) -> ({:?},{name_after}) by event {ev} which is not an authorised commit", members_before, members_after), seqtxt());
             }
         }
         // C04: every stored message is attributed to its true author and keyed by the hash of its own fields
@@ -404,7 +420,10 @@ fn step<S: MdkStorageProvider>(w: &mut World<S>, l: &str, truth: &mut Truth, run
             let cls = if pending_before == Some(ev) { "rollback-resurrects-superseded-pending-commit" } else if truth.own_echo_other_pending { "own-echo-merges-a-different-pending-commit" } else { "" };
             run.oracle_fail("C07", cls, format!("[{backend}] re-delivering event {ev}, which had already taken effect at member {m}, changed its state: {b} -> {}", strip(&fp)), seq.join(" || ") + " || " + &line);
         }
-        if ["res=App", "res=Commit", "res=PendingProposal", "res=AutoCommit"].iter().any(|k| fp.starts_with(k)) { truth.took_effect.insert((m, ev)); }
+        // "taken effect": stored / queued / applied HERE (a Commit answer that merely acknowledges one of the client's own
+        // commits it never applied - cleared, or merged as something else - is not an effect of that event)
+        let applied_here = !fp.starts_with("res=Commit") || fp.contains(&format!(" st={} ", ev + 1));
+        if applied_here && ["res=App", "res=Commit", "res=PendingProposal", "res=AutoCommit"].iter().any(|k| fp.starts_with(k)) { truth.took_effect.insert((m, ev)); }
     }
     // C06: a refused event has no effect on the observable projection
     if let Some(b) = before {
